@@ -320,4 +320,31 @@ theorem C03_no_shared_origin_not_enough :
   rw [C03_witness_later_multi.1, C03_witness_later_multi.2.1] at ha
   exact absurd ha (by decide)
 
+/-! ### non-vacuity of the routing theorems -/
+
+/-- Non-vacuity of `C03_routing`: two upstreams with axes of sizes [3] and [2,2]; job 7 of 12 has coordinates (1,1,1), its
+    per-upstream indices are 1 and 3. -/
+example : (7 : Nat) < prodL [[3], [2, 2]].flatten := by decide
+example : decode [[3], [2, 2]].flatten 7 = [1, 1, 1] ∧ decode ([[3], [2, 2]].map prodL) 7 = [1, 3] := by decide
+
+/-- Non-vacuity of `C03_fanin_disjoint`: node 2 fed by node 0 (axis of size 3) through `x` and node 1 (axis of size 2)
+    through `y`, with an own split over `z` (size 2): all hypotheses hold, and at job 7 the model routes index 1 / 1. -/
+example :
+    let ups : List (List (Key × Nat)) := [[((0, .x), 3)], [((1, .x), 2)]]
+    let fs : List Fld := [.x, .y]
+    let ownAxes : List (Key × Nat) := [((2, .z), 2)]
+    let own : Option (List (List Nat) × List Key) := some ([[0], [1]], [(2, .z)])
+    fs.length = ups.length ∧ fs.Nodup ∧
+    ((ups.map (·.map (·.1))).flatten ++ ownAxes.map (·.1)).Nodup ∧
+    ownLen own = prodL (ownAxes.map (·.2)) ∧
+    (∀ f ∈ fs, ((2 : Name), f) ∉ [((2 : Name), Fld.z)]) ∧
+    (7 : Nat) < prodL ((ups.flatten ++ ownAxes).map (·.2)) ∧
+    ((inputsIndOf 2 (List.zipWith (fun a f => (prodL (a.map (·.2)), [f])) ups fs) own)[7]?).bind (fun d => d.get? (2, .y))
+      = some 1 := by
+  decide
+
+/-- Non-vacuity of `C03_group_test`: keys A.x, B.x; the group of B.x = 1 contains the job (2, 1) and not (2, 0). -/
+example : Dict.subset (mkDict [((1 : Name), Fld.x)] [1]) (mkDict [((0 : Name), Fld.x), (1, .x)] [2, 1]) = true ∧
+    Dict.subset (mkDict [((1 : Name), Fld.x)] [1]) (mkDict [((0 : Name), Fld.x), (1, .x)] [2, 0]) = false := by decide
+
 end PydraModel.WfState
